@@ -4657,9 +4657,15 @@ class DecConvex(Convex):
             else:
                 values_out = self.affine_out
             if not isinstance(values_in, pd.Series):
-                values_in = pd.Series([values_in])
+                # a static argument next to a scenario-wise affine part
+                if isinstance(values_out, pd.Series):
+                    values_in = pd.Series([values_in] * len(values_out),
+                                          index=values_out.index)
+                else:
+                    values_in = pd.Series([values_in])
             if not isinstance(values_out, pd.Series):
-                values_out = pd.Series([values_out] * len(values_in))
+                values_out = pd.Series([values_out] * len(values_in),
+                                       index=values_in.index)
 
             output = []
             for value_in, value_out in zip(values_in, values_out):
